@@ -195,6 +195,25 @@ def _equality(w, e, s, l, r, positive, outs):
     if _is_enum(l) and _is_enum(r):
         outs.append((s, "val", C((l == r) == positive)))
         return
+    # {a, b, ...} == {c}: a display of values equals a one-element constant set iff every value
+    # equals that constant
+    for p, q in ((l, r), (r, l)):
+        if is_lit(p, "set") and p[2] and is_lit(q, "set") and len(q[2]) == 1 and is_const(q[2][0]) and not all(is_const(x) for x in p[2]):
+            c0 = q[2][0]
+            t_state = s.copy()
+            feasible = True
+            for it in p[2]:
+                if t_state.contradicts(("eq", it, c0)):
+                    feasible = False
+                t_state.add(("eq", it, c0))
+            if feasible:
+                outs.append((t_state, "val", C(positive)))
+            for it in p[2]:
+                if not s.contradicts(("ne", it, c0)):
+                    f_state = s.copy()
+                    f_state.add(("ne", it, c0))
+                    outs.append((f_state, "val", C(not positive)))
+            return
     a, b = s.copy(), s.copy()
     # set(x) == {"a", "b"}: x has exactly these keys (x's iteration yields exactly them)
     if is_call(l, ("builtin:set", "builtin:frozenset")) and len(l[2]) == 1 and is_lit(r, "set"):
